@@ -8,8 +8,42 @@ fn sample(lines: &[Line], name: &str) -> Option<String> {
     lines.iter().find_map(|l| match l { Line::Sample(s) if s.name == name => Some(s.value.clone()), _ => None })
 }
 
+/// global labels whose names need sanitising, overridden (or not) by key labels of the same raw name
+fn global_labels(plan: &Plan) -> ! {
+    let rec = PrometheusBuilder::new()
+        .add_global_label("service.name", "from-global")
+        .add_global_label("plain", "g1")
+        .add_global_label("plain", "g2")
+        .add_global_label("other-one", "kept")
+        .build_recorder();
+    let h = rec.handle();
+    let mut v: Vec<&str> = vec![];
+    metrics::with_local_recorder(&rec, || {
+        metrics::counter!("c07_gl", "service.name" => "from-key").increment(1);
+    });
+    let text = h.render();
+    println!("{}", text);
+    match check_exposition(&text) {
+        Err(e) => { println!("strict parser: {}", e); v.push("stored_under_the_given_name_latest_value_wins"); }
+        Ok(lines) => {
+            let s = lines.iter().find_map(|l| match l { Line::Sample(s) if s.name == "c07_gl" => Some(s.clone()), _ => None });
+            let get = |s: &Sample, k: &str| s.labels.iter().filter(|x| x.0 == k).map(|x| x.1.clone()).collect::<Vec<_>>();
+            match s {
+                None => v.push("stored_under_the_given_name_latest_value_wins"),
+                Some(s) => {
+                    if get(&s, "service_name") != vec!["from-key".to_string()] || get(&s, "plain") != vec!["g2".to_string()] || get(&s, "other_one") != vec!["kept".to_string()] {
+                        v.push("stored_under_the_given_name_latest_value_wins");
+                    }
+                }
+            }
+        }
+    }
+    finish(&v, plan)
+}
+
 fn main() {
     let plan = load_plan(&std::env::args().nth(1).expect("plan"));
+    if plan.scenario == "c07_global_labels" { global_labels(&plan); }
     let inp = |k: &str| plan.inputs.get(k).copied().unwrap_or(0);
     let rec = PrometheusBuilder::new().build_recorder();
     let h = rec.handle();
